@@ -100,7 +100,6 @@ Qed.
 
 Section WithNH.
 Variable NH : bytes -> list entry -> bytes.
-Hypothesis NH_truthy : forall d es, NH d es <> [].
 Variable rank : nat -> nat.
 Notation Inv0 := (Inv0 NH).
 Notation Inv := (Inv NH).
@@ -128,7 +127,7 @@ Proof.
 Qed.
 
 Lemma collect_node_ok : forall n s, Inv s -> ranked rank s -> n < length s ->
-  exists s' L, collect_node NH n s = Ok (s', L) /\ Inv s' /\ cgrow s s' /\ collected_at s' n /\ flipped s s' L.
+  exists s' L, collect_node NH false n s = Ok (s', L) /\ Inv s' /\ cgrow s s' /\ collected_at s' n /\ flipped s s' L.
 Proof.
   intros n s [I I4] Rk L. destruct (get_lt s n L) as [x E]. unfold collect_node, get. rewrite E. simpl.
   destruct (collected x) eqn:Cx.
@@ -144,7 +143,7 @@ Proof.
     assert (Shc : shape s sc).
     { apply F2_upd; [apply nshape_refl|]. intros y Ey. unfold nshape; simpl; auto. }
     assert (Lc : n < length sc) by (unfold sc; rewrite upd_length; auto).
-    destruct (read_hash_good NH NH_truthy rank n sc Ic (shape_ranked _ _ _ Shc Rk) Lc Logic.I)
+    destruct (read_hash_good NH rank n sc Ic (shape_ranked _ _ _ Shc Rk) Lc Logic.I)
       as (s' & h & E' & I' & Sh' & G' & HV' & _).
     specialize (G' eq_refl). rewrite E'. simpl. exists s', [n]. split; auto.
     assert (CG : cgrow s s').
@@ -165,13 +164,13 @@ Proof.
 Qed.
 
 Lemma collect_ok : forall fuel n s, Inv s -> ranked rank s -> n < length s -> rank n < fuel ->
-  exists s' L, collect NH fuel n s = Ok (s', L) /\ Inv s' /\ cgrow s s' /\
+  exists s' L, collect NH false fuel n s = Ok (s', L) /\ Inv s' /\ cgrow s s' /\
     (forall m, Reach s n m -> collected_at s' m) /\ flipped s s' L.
 Proof.
   induction fuel as [|f IH]; intros n s I Rk L B; [lia|].
   destruct (get_lt s n L) as [x E]. simpl. unfold get at 1. rewrite E. simpl.
   destruct (collect_node_ok n s I Rk L) as (s0 & L0 & E0 & I0 & G0 & C0 & F0). rewrite E0. simpl.
-  set (F := fun (k : nat) (acc : heap * list nat) => r' <- collect NH f k (fst acc) ;; Ok (fst r', snd acc ++ snd r')).
+  set (F := fun (k : nat) (acc : heap * list nat) => r' <- collect NH false f k (fst acc) ;; Ok (fst r', snd acc ++ snd r')).
   assert (FOLD : forall l t L1, Inv t -> ranked rank t -> (forall k, In k l -> k < length t /\ rank k < f) ->
      exists t' L', fold_res F l (t, L1) = Ok (t', L1 ++ L') /\ Inv t' /\ cgrow t t' /\
        (forall k, In k l -> forall m, Reach t k m -> collected_at t' m) /\ flipped t t' L').
@@ -211,14 +210,14 @@ Qed.
 
 (* collecting a sub-DAG whose nodes are all collected does nothing *)
 Lemma collect_noop : forall fuel n s, wfk s -> ranked rank s -> n < length s -> rank n < fuel ->
-  (forall m, Reach s n m -> collected_at s m) -> collect NH fuel n s = Ok (s, []).
+  (forall m, Reach s n m -> collected_at s m) -> collect NH false fuel n s = Ok (s, []).
 Proof.
   induction fuel as [|f IH]; intros n s W Rk L B HC; [lia|].
   destruct (get_lt s n L) as [x E]. simpl. unfold get at 1. rewrite E. simpl.
   destruct (HC n (Reach_refl s n L)) as (x' & E' & Cx). assert (x' = x) by congruence. subst.
   unfold collect_node, get. rewrite E. simpl. rewrite Cx. simpl.
   assert (FOLD : forall l, (forall k, In k l -> k < length s /\ rank k < f /\ forall m, Reach s k m -> collected_at s m) ->
-     fold_res (fun (k : nat) (acc : heap * list nat) => r' <- collect NH f k (fst acc) ;; Ok (fst r', snd acc ++ snd r')) l (s, [])
+     fold_res (fun (k : nat) (acc : heap * list nat) => r' <- collect NH false f k (fst acc) ;; Ok (fst r', snd acc ++ snd r')) l (s, [])
      = Ok (s, [])).
   { induction l as [|k l IHl]; intros Hl; simpl; auto.
     destruct (Hl k (or_introl eq_refl)) as (Lk & Bk & Ck).
